@@ -29,6 +29,7 @@ import Gobptree.Proofs.ConcReach
 import Gobptree.Proofs.ConcRank
 import Gobptree.Proofs.CSFinal
 import Gobptree.Proofs.CProgress
+import Gobptree.Proofs.CTerminate
 
 namespace Gobptree.Conc
 open Gobptree
@@ -90,6 +91,48 @@ theorem C06_own_step_progress (P : Params K) (tree : Tree K V) (progs : List (Li
     (hps : th.park ≠ .start) :
     th.pc < th'.pc ∨ th'.park = .finished ∨ opMeasure c'.tree th'.park < opMeasure c.tree th.park :=
   own_step_progress c c' t hstep (reachable_cinv P tree progs ht ho hp hd hdel c hr) th th' hth hth' hps
+
+/-- **C06: every execution is finite, with an explicit bound — no fairness assumption.** From any
+    reachable configuration NO schedule whatsoever runs for more than `termBound c` steps
+    (`termBound c ≤ (Σ_threads (|prog| + 1)) · (3·depthBound c + 9)`, where `depthBound` is the
+    current depth plus the number of Insert/Update operations that may still split the root): a
+    thread waiting for a held mutex is not enabled (no spinning), every own step decreases a
+    potential, no step of another thread increases it.  No livelock, no retry loop, no starvation
+    inside the model: whatever the scheduler does, it runs out of steps. -/
+theorem C06_every_execution_terminates (P : Params K) (tree : Tree K V) (progs : List (List (COp K V)))
+    (ht : TreeOk none tree) (ho : tree.order = P.order) (hp : PadOk P) (hd : Disciplined progs)
+    (hdel : 4 ≤ tree.order ∨ NoDelete progs)
+    (c : Config K V) (hr : Reachable (Config.init P tree progs) c)
+    (ts : List Nat) (c' : Config K V) (hrun : c.run ts = (c', none)) :
+    ts.length ≤ termBound c ∧
+    termBound c ≤ (c.threads.map fun th => th.prog.length + 1).sum * (3 * depthBound c + 9) :=
+  ⟨executions_bounded_explicit P tree progs ht ho hp hd hdel c hr ts c' hrun,
+   termBound_le c (reachable_cinv P tree progs ht ho hp hd hdel c hr)⟩
+
+/-- **C06: every operation returns.** Run ANY schedule from a reachable configuration until nothing
+    is enabled (by `C06_every_execution_terminates` that happens within `termBound c` steps, and by
+    `enabled_step` the run can always be extended while something is enabled); then — unless a
+    client ended a thread with a cursor still open — every thread has finished: every Insert,
+    Update, Delete, Search, NewScanner and cursor step of every program has returned. -/
+theorem C06_all_operations_return (P : Params K) (tree : Tree K V) (progs : List (List (COp K V)))
+    (ht : TreeOk none tree) (ho : tree.order = P.order) (hp : PadOk P) (hd : Disciplined progs)
+    (hdel : 4 ≤ tree.order ∨ NoDelete progs)
+    (c : Config K V) (hr : Reachable (Config.init P tree progs) c)
+    (ts : List Nat) (c' : Config K V) (hrun : c.run ts = (c', none)) (hstuck : c'.enabledSet = [])
+    (hfin : FinishedClean c') : c'.unfinished = false :=
+  all_operations_return P tree progs ht ho hp hd hdel c hr ts c' hrun hstuck hfin
+
+/-- **C06: there is no infinite execution** (well-founded form). -/
+theorem C06_no_infinite_execution (P : Params K) (tree : Tree K V) (progs : List (List (COp K V)))
+    (ht : TreeOk none tree) (ho : tree.order = P.order) (hp : PadOk P) (hd : Disciplined progs)
+    (hdel : 4 ≤ tree.order ∨ NoDelete progs)
+    (c : Config K V) (hr : Reachable (Config.init P tree progs) c) :
+    ¬ ∃ f : Nat → Nat, ∀ n, (c.run ((List.range n).map f)).2 = none :=
+  no_infinite_execution c (reachable_cinv P tree progs ht ho hp hd hdel c hr)
+
+/-- an enabled thread can step: a maximal execution exists -/
+theorem C06_enabled_can_step (c : Config K V) (t : Nat) (h : t ∈ c.enabledSet) : ∃ c', c.step t = some c' :=
+  enabled_step c t h
 
 /-- the hypotheses are satisfiable: a fresh tree of order 4 satisfies the structural
     invariant, and a program mixing point operations with a cursor session is disciplined -/
@@ -218,3 +261,7 @@ end Gobptree.Conc
 #print axioms Gobptree.Conc.C06_no_deadlock
 #print axioms Gobptree.Conc.C06_bounded_own_steps
 #print axioms Gobptree.Conc.C06_own_step_progress
+#print axioms Gobptree.Conc.C06_every_execution_terminates
+#print axioms Gobptree.Conc.C06_all_operations_return
+#print axioms Gobptree.Conc.C06_no_infinite_execution
+#print axioms Gobptree.Conc.C06_enabled_can_step
